@@ -12,6 +12,6 @@ echo "== suite with patch"; ( cd $WT && /venv/bin/python -m pytest -q -p no:cach
 echo "== demo with patch (expect non-zero)"; ( cd /tmp && timeout 600 /venv/bin/python "$D/demo.py" $WT >/tmp/mutdemo_$$.txt 2>&1; echo "exit=$?"; tail -3 /tmp/mutdemo_$$.txt )
 echo "== demo on clean /repo (expect 0)"; ( cd /tmp && timeout 600 /venv/bin/python "$D/demo.py" /repo >/tmp/mutdemo_$$.txt 2>&1; echo "exit=$?"; tail -2 /tmp/mutdemo_$$.txt )
 echo "== check $P against patched tree"
-( cd /verif && VERIF_REPO=$WT VERIF_SCRATCH_OUT=$OUT timeout 3000 /venv/bin/python simcheck.py run $P "$@" 2>&1 | grep -E "VIOLATION|KNOWN|SUMMARY|HARNESS|class=" | head -12 )
+( cd /verif && VERIF_REPO=$WT VERIF_SCRATCH_OUT=$OUT timeout 3000 /venv/bin/python simcheck.py run $P "$@" 2>&1 | grep -E "VIOLATION|EXTENSION|KNOWN|SUMMARY|HARNESS|class=" | head -14 )
 ls $OUT/replays 2>/dev/null | head -3
 git -C /repo worktree remove --force $WT; rm -rf $OUT /tmp/mutdemo_$$.txt
